@@ -67,7 +67,10 @@ def run_one(m, tier, runs=None):
         p = subprocess.run(cmd, capture_output=True, text=True, env=env, cwd=VERIF, timeout=3600)
         dt = time.time() - t0
         rules = [ln.strip() for ln in p.stdout.splitlines() if ln.strip().startswith("rule=")]
-        return p.returncode, dt, rules, p.stdout[-2000:] + p.stderr[-2000:]
+        code = p.returncode
+        if code == 1 and "VIOLATION property=" not in p.stdout:
+            code = 2  # the checker itself failed to run: not a verdict
+        return code, dt, rules, p.stdout[-2000:] + p.stderr[-2000:]
     finally:
         shutil.rmtree(scratch, ignore_errors=True)
 
